@@ -238,6 +238,12 @@ pub fn cli_codec(ctx: &mut Ctx) {
             // idempotence at the text level
             if let Ok(v) = r {
                 ctx.oracle_eval();
+                // a symbolic clause names only permission bits of user/group/other: the set-user-ID, set-group-ID, sticky and
+                // file-type bits it does not name stay as they are
+                let symbolic = text.contains(['=', '+', '-']);
+                if symbolic && (v & !0o777) != (x & !0o777) {
+                    ctx.violation("C10", "a symbolic chmod clause changed mode bits above the nine permission bits it names", json!({"mode":text,"start":format!("{x:o}"),"result":format!("{v:o}")}));
+                }
                 if cv::chmod_apply(&text, v) != Ok(v) {
                     ctx.violation("C10", "applying the same chmod mode twice changes the mode again", json!({"mode":text,"start":x,"once":v,"twice":format!("{:?}", cv::chmod_apply(&text, v))}));
                 }
